@@ -308,6 +308,15 @@ def special_plans():
                                                           [N('m', kind, dict(read_address='ra', write_address='wa', write='we', readdata='rd', writedata='wd'), {})])))
     for vw in (4, 7, 8, 1):
         out.append(('msgsequencer_v%d' % vw, _plan(dict(ready=1, valid=1, v=vw), ['ready'], [N('ms', 'MsgSequencer', dict(ready='ready', valid='valid', v='v'), dict(msg='~Az\x7f\xff'))])))
+    # user-style behavioural blocks that write one wire twice per evaluation, the last time out of range
+    for aw, rw in [(4, 4), (8, 3), (3, 8), (1, 1), (16, 5)]:
+        for mode in (0, 1, 2):
+            out.append(('double_prepare_%d_%d_m%d' % (aw, rw, mode), _plan(dict(a=aw, r=rw, q=rw), ['a'],
+                        [N('dp', 'DoublePrepare', dict(a='a', r='r'), dict(mode=mode)), N('g', 'Reg', dict(d='r', q='q', enable=None, reset=None), {}),
+                         N('wv', 'Waveform', dict(w0='r', w1='q'))])))
+        for mode in (0, 1):
+            out.append(('double_put_%d_%d_m%d' % (aw, rw, mode), _plan(dict(a=aw, r=rw), ['a'],
+                        [N('dp', 'DoublePut', dict(a='a', r='r'), dict(mode=mode)), N('cap', 'StreamCapture', dict(x='r'))])))
     for w in (1, 2, 5):
         out.append(('counter_%d' % w, _plan(dict(rs=1, inc=1, q=w), ['rs', 'inc'], [N('k', 'Counter', dict(reset='rs', inc='inc', q='q'), {}), N('wv', 'Waveform', dict(w0='q'))])))
         out.append(('modcounter_%d' % w, _plan(dict(rs=1, inc=1, q=w, co=1), ['rs', 'inc'], [N('k', 'ModuloCounter', dict(reset='rs', inc='inc', q='q', carryout='co'), dict(mod=(1 << w) + 1))])))
